@@ -34,100 +34,136 @@ def expectedFbEvents : Out → List FbEv
   | .fbErr => [.failure]
   | _ => []
 
-theorem return_value_contract (fo fc io : Bool) (m fm : Int) (fd : Bool) (jobs : List Exec.Job) (sched : List Nat) (i : Nat)
+theorem return_value_contract (fo fc io : Bool) (m fm : Int) (fd : Bool) (dis : Bool) (jobs : List Exec.Job) (sched : List Nat) (i : Nat)
     (sc : Run.Script) (fb : FbScript) (o : Out) :
-    let c := run Exec.sys (Exec.init fo fc io m fm fd jobs) sched
-    jobs[i]? = some (.exec sc fb) → Exec.outOf c i = some o →
-    ∃ r, Exec.runResOf c i = some r ∧ contract sc fb fd fm r o := by
-  intro c hj ho
-  obtain ⟨r, hr, hc⟩ := ex_return_value jobs fd fm c (ex_FInv_run fo fc io m fm fd jobs sched) i sc fb o hj ho
-  refine ⟨r, hr, ?_⟩
+    let c := run Exec.sys (Exec.init fo fc io m fm fd jobs dis) sched
+    dis = false → jobs[i]? = some (.exec sc fb) → Exec.outOf c i = some o →
+    ∃ r, Exec.runResOf c i = some r ∧ contract sc fb fd fm r o ∧ Exec.directCount c i = 0 := by
+  intro c hd hj ho
+  subst hd
+  obtain ⟨r, hr, hc, hdc⟩ := ex_return_value jobs fd fm c (ex_FInv_run fo fc io m fm fd jobs false sched) i sc fb o hj ho
+  refine ⟨r, hr, ?_, hdc⟩
   cases r <;> exact hc
 
-theorem exactly_the_right_fallback_events (fo fc io : Bool) (m fm : Int) (fd : Bool) (jobs : List Exec.Job) (sched : List Nat) (i : Nat) (o : Out) :
-    let c := run Exec.sys (Exec.init fo fc io m fm fd jobs) sched
+theorem exactly_the_right_fallback_events (fo fc io : Bool) (m fm : Int) (fd : Bool) (dis : Bool) (jobs : List Exec.Job) (sched : List Nat) (i : Nat) (o : Out) :
+    let c := run Exec.sys (Exec.init fo fc io m fm fd jobs dis) sched
     Exec.outOf c i = some o →
     Exec.fbEventsOf c i = expectedFbEvents o ∧
     Exec.fbInvokedCount c i = (match o with | .fbOk | .fbErr | .fbPanic => 1 | _ => 0) := by
   intro c ho
-  have he := ex_done_events jobs fd fm c (ex_FInv_run fo fc io m fm fd jobs sched) i o ho
+  have he := ex_done_events jobs fd fm dis c (ex_FInv_run fo fc io m fm fd jobs dis sched) i o ho
   rw [ex_fbEventsOf, ex_fbInvokedCount, he]
   cases o <;> exact ⟨rfl, rfl⟩
 
-theorem at_most_one_fallback_event_ever (fo fc io : Bool) (m fm : Int) (fd : Bool) (jobs : List Exec.Job) (sched : List Nat) (i : Nat) :
-    let c := run Exec.sys (Exec.init fo fc io m fm fd jobs) sched
+theorem at_most_one_fallback_event_ever (fo fc io : Bool) (m fm : Int) (fd : Bool) (dis : Bool) (jobs : List Exec.Job) (sched : List Nat) (i : Nat) :
+    let c := run Exec.sys (Exec.init fo fc io m fm fd jobs dis) sched
     (Exec.fbEventsOf c i).length ≤ 1 ∧ Exec.fbInvokedCount c i ≤ 1 := by
   intro c
   rw [ex_fbEventsOf, ex_fbInvokedCount]
-  rcases ex_shapes jobs fd fm c (ex_FInv_run fo fc io m fm fd jobs sched) i with e | e | e | e | e <;> rw [e] <;>
+  rcases ex_shapes jobs fd fm dis c (ex_FInv_run fo fc io m fm fd jobs dis sched) i with e | e | e | e | e <;> rw [e] <;>
     exact ⟨by decide, by decide⟩
 
 /-- a bad request, a nil and a panic of the run function never reach the fallback; nor does anything when fallbacks are disabled -/
-theorem fallback_not_consulted (fo fc io : Bool) (m fm : Int) (fd : Bool) (jobs : List Exec.Job) (sched : List Nat) (i : Nat)
+theorem fallback_not_consulted (fo fc io : Bool) (m fm : Int) (fd : Bool) (dis : Bool) (jobs : List Exec.Job) (sched : List Nat) (i : Nat)
     (sc : Run.Script) (fb : FbScript) (r : Run.Res) :
-    let c := run Exec.sys (Exec.init fo fc io m fm fd jobs) sched
+    let c := run Exec.sys (Exec.init fo fc io m fm fd jobs dis) sched
     jobs[i]? = some (.exec sc fb) → Exec.runResOf c i = some r →
     (runFailed sc r = false ∨ runBad sc r = true ∨ r = .panicked ∨ fd = true ∨ fb.present = false) →
     Exec.fbInvokedCount c i = 0 ∧ Exec.fbEventsOf c i = [] := by
   intro c hj hr h
-  have he := ex_not_consulted jobs fd fm c (ex_FInv_run fo fc io m fm fd jobs sched) i sc fb r hj hr h
+  have he := ex_not_consulted jobs fd fm dis c (ex_FInv_run fo fc io m fm fd jobs dis sched) i sc fb r hj hr h
   rw [ex_fbEventsOf, ex_fbInvokedCount, he]
   exact ⟨rfl, rfl⟩
 
 /-- the run side is untouched by what follows it: each finished `c.run` told the run collectors exactly what its outcome calls for -/
-theorem exactly_the_right_run_events (fo fc io : Bool) (m fm : Int) (fd : Bool) (jobs : List Exec.Job) (sched : List Nat) (i : Nat)
+theorem exactly_the_right_run_events (fo fc io : Bool) (m fm : Int) (fd : Bool) (dis : Bool) (jobs : List Exec.Job) (sched : List Nat) (i : Nat)
     (sc : Run.Script) (fb : FbScript) (r : Run.Res) :
-    let c := run Exec.sys (Exec.init fo fc io m fm fd jobs) sched
+    let c := run Exec.sys (Exec.init fo fc io m fm fd jobs dis) sched
     jobs[i]? = some (.exec sc fb) → Exec.runResOf c i = some r →
     CM.Props.RunAll.expectedEvents sc r (Exec.runEventsOf c i) ∧
     Exec.runInvokedCount c i = (match r with | .ran _ | .panicked => 1 | _ => 0) := by
   intro c hj hr
-  obtain ⟨h1, h2⟩ := ex_run_events jobs c (ex_EInv_run fo fc io m fm fd jobs sched) i sc fb r hj hr
+  obtain ⟨h1, h2⟩ := ex_run_events jobs c (ex_EInv_run fo fc io m fm fd jobs dis sched) i sc fb r hj hr
   refine ⟨?_, h2⟩
   cases r <;> exact h1
 
-theorem gauges_never_negative (fo fc io : Bool) (m fm : Int) (fd : Bool) (jobs : List Exec.Job) (sched : List Nat) :
-    let c := run Exec.sys (Exec.init fo fc io m fm fd jobs) sched
+theorem gauges_never_negative (fo fc io : Bool) (m fm : Int) (fd : Bool) (dis : Bool) (jobs : List Exec.Job) (sched : List Nat) :
+    let c := run Exec.sys (Exec.init fo fc io m fm fd jobs dis) sched
     0 ≤ c.shared.r.gauge ∧ 0 ≤ c.shared.fbGauge := by
   intro c
   constructor
-  · have hg : c.shared.r.gauge = _ := ex_GInv_run fo fc io m fm fd jobs sched
+  · have hg : c.shared.r.gauge = _ := ex_GInv_run fo fc io m fm fd jobs dis sched
     rw [hg]
     exact CM.Lemmas.RunDynL.rd_cnt_nonneg _
-  · obtain ⟨reg, G⟩ := ex_BInv_run fo fc io m fm fd jobs sched
+  · obtain ⟨reg, G⟩ := ex_BInv_run fo fc io m fm fd jobs dis sched
     have h1 : c.shared.fbGauge = (reg.length : Int) := G.gauge
     omega
 
-theorem quiescent_gauges_zero (fo fc io : Bool) (m fm : Int) (fd : Bool) (jobs : List Exec.Job) (sched : List Nat)
-    (hq : Exec.allDone (run Exec.sys (Exec.init fo fc io m fm fd jobs) sched) = true) :
-    let c := run Exec.sys (Exec.init fo fc io m fm fd jobs) sched
+theorem quiescent_gauges_zero (fo fc io : Bool) (m fm : Int) (fd : Bool) (dis : Bool) (jobs : List Exec.Job) (sched : List Nat)
+    (hq : Exec.allDone (run Exec.sys (Exec.init fo fc io m fm fd jobs dis) sched) = true) :
+    let c := run Exec.sys (Exec.init fo fc io m fm fd jobs dis) sched
     c.shared.r.gauge = 0 ∧ c.shared.fbGauge = 0 := by
   intro c
   constructor
-  · have hg : c.shared.r.gauge = _ := ex_GInv_run fo fc io m fm fd jobs sched
+  · have hg : c.shared.r.gauge = _ := ex_GInv_run fo fc io m fm fd jobs dis sched
     rw [hg]
-    exact ex_allDone_cnt jobs fd fm c (ex_FInv_run fo fc io m fm fd jobs sched) hq
-  · obtain ⟨reg, G⟩ := ex_BInv_run fo fc io m fm fd jobs sched
+    exact ex_allDone_cnt jobs fd fm dis c (ex_FInv_run fo fc io m fm fd jobs dis sched) hq
+  · obtain ⟨reg, G⟩ := ex_BInv_run fo fc io m fm fd jobs dis sched
     have h1 : c.shared.fbGauge = (reg.length : Int) := G.gauge
     have h2 : reg.length = _ := G.len
     have h3 := ex_allDone_inRegion _ hq
     omega
 
-theorem fallbacks_in_flight_le_limit (fo fc io : Bool) (m fm : Int) (fd : Bool) (hfm : 0 ≤ fm) (jobs : List Exec.Job) (sched : List Nat) :
-    (Exec.fbInFlight (run Exec.sys (Exec.init fo fc io m fm fd jobs) sched) : Int) ≤ fm := by
-  obtain ⟨reg, G⟩ := ex_BInv_run fo fc io m fm fd jobs sched
+theorem fallbacks_in_flight_le_limit (fo fc io : Bool) (m fm : Int) (fd : Bool) (dis : Bool) (hfm : 0 ≤ fm) (jobs : List Exec.Job) (sched : List Nat) :
+    (Exec.fbInFlight (run Exec.sys (Exec.init fo fc io m fm fd jobs dis) sched) : Int) ≤ fm := by
+  obtain ⟨reg, G⟩ := ex_BInv_run fo fc io m fm fd jobs dis sched
   rw [ex_fbInFlight_eq]
   exact G.inFlight_le hfm
 
-theorem negative_fallback_limit_refuses_nobody (fo fc io : Bool) (m fm : Int) (fd : Bool) (hfm : fm < 0) (jobs : List Exec.Job) (sched : List Nat) (i : Nat) :
-    Exec.outOf (run Exec.sys (Exec.init fo fc io m fm fd jobs) sched) i ≠ some .limit := by
-  exact ex_never_limit jobs fd fm _ (ex_FInv_run fo fc io m fm fd jobs sched) hfm i
+theorem negative_fallback_limit_refuses_nobody (fo fc io : Bool) (m fm : Int) (fd : Bool) (dis : Bool) (hfm : fm < 0) (jobs : List Exec.Job) (sched : List Nat) (i : Nat) :
+    Exec.outOf (run Exec.sys (Exec.init fo fc io m fm fd jobs dis) sched) i ≠ some .limit := by
+  exact ex_never_limit jobs fd fm dis _ (ex_FInv_run fo fc io m fm fd jobs dis sched) hfm i
 
-theorem never_deadlocks (fo fc io : Bool) (m fm : Int) (fd : Bool) (jobs : List Exec.Job) (sched : List Nat) :
-    let c := run Exec.sys (Exec.init fo fc io m fm fd jobs) sched
+theorem never_deadlocks (fo fc io : Bool) (m fm : Int) (fd : Bool) (dis : Bool) (jobs : List Exec.Job) (sched : List Nat) :
+    let c := run Exec.sys (Exec.init fo fc io m fm fd jobs dis) sched
     Exec.allDone c = false → ∃ i l, c.locals[i]? = some l ∧ (Exec.step i c.shared l).isSome := by
   intro c hnd
-  exact ex_progress jobs fd fm io c (ex_FInv_run fo fc io m fm fd jobs sched) (ex_TInv_run fo fc io m fm fd jobs sched) hnd
+  exact ex_progress jobs fd fm dis io c (ex_FInv_run fo fc io m fm fd jobs dis sched)
+    (ex_TInv_run fo fc io m fm fd jobs dis sched) hnd
+
+/-- the kill switch: with `Disabled` on, Execute is the run function called directly — its answer, its error or its panic
+    straight to the caller, exactly one direct call, no admission, no run event, no fallback, no fallback event, and both
+    gauges stay at zero whatever everybody is doing (OpenCircuit / CloseCircuit and operators included) -/
+theorem disabled_is_pass_through (fo fc io : Bool) (m fm : Int) (fd : Bool) (jobs : List Exec.Job) (sched : List Nat) :
+    let c := run Exec.sys (Exec.init fo fc io m fm fd jobs true) sched
+    c.shared.r.gauge = 0 ∧ c.shared.fbGauge = 0 ∧
+    ∀ i sc fb, jobs[i]? = some (.exec sc fb) →
+      Exec.runEventsOf c i = [] ∧ Exec.runInvokedCount c i = 0 ∧ Exec.fbEventsOf c i = [] ∧ Exec.fbInvokedCount c i = 0 ∧
+      Exec.directCount c i ≤ 1 ∧
+      ∀ o, Exec.outOf c i = some o →
+        o = (if sc.panics then .runPanic else if sc.failed then .runErr else .ok) ∧ Exec.directCount c i = 1 := by
+  intro c
+  have I := ex_Inv_run fo fc io m fm fd jobs true sched
+  obtain ⟨g1, g2⟩ := ex_kill_gauges jobs fd fm c I
+  refine ⟨?_, ?_, ?_⟩
+  · have hg : c.shared.r.gauge = _ := ex_GInv_run fo fc io m fm fd jobs true sched
+    rw [hg]
+    exact g1
+  · obtain ⟨reg, G⟩ := ex_BInv_run fo fc io m fm fd jobs true sched
+    have h1 : c.shared.fbGauge = (reg.length : Int) := G.gauge
+    have h2 : reg.length = (c.locals.map ex_glL).countP inRegion := G.len
+    omega
+  · intro i sc fb hj
+    obtain ⟨he, hdc, _, ho⟩ := ex_kill_exec jobs fd fm c I.F i sc fb hj
+    have hr := ex_kill_run_events jobs fd fm c I i sc fb hj
+    have h1 : Exec.runEventsOf c i = (CM.Lemmas.RunEvents.re_evs i c.shared.r.events).filter
+        (fun e => e != .invoked && e != .vetoed) := CM.Lemmas.RunDynL.rd_eventsOf (ex_proj c) i
+    have h2 : Exec.runInvokedCount c i = ((CM.Lemmas.RunEvents.re_evs i c.shared.r.events).filter
+        (fun e => e == .invoked)).length := CM.Lemmas.RunDynL.rd_invokedCount (ex_proj c) i
+    refine ⟨by rw [h1, hr]; rfl, by rw [h2, hr]; rfl, by rw [ex_fbEventsOf, he]; rfl,
+      by rw [ex_fbInvokedCount, he]; rfl, hdc, ?_⟩
+    intro o hoo
+    exact ho o hoo
 
 /-! non-vacuity: fallback limit 1; a failing call whose fallback is inside its function when a second failing call arrives
     (refused: limit), a bad request (never reaches its fallback) and a call whose fallback panics -/
@@ -138,5 +174,8 @@ def c1 := run Exec.sys (Exec.init false false false 10 1 false jobs1) sched1
 example : Exec.allDone c1 = true := by decide +kernel
 example : Exec.outOf c1 0 = some .fbOk ∧ Exec.outOf c1 1 = some .limit ∧ Exec.outOf c1 2 = some .runErr ∧ Exec.outOf c1 3 = some .fbPanic := by decide +kernel
 example : c1.shared.fbGauge = 0 ∧ c1.shared.r.gauge = 0 := by decide +kernel
+/-- … and the same callers under the kill switch -/
+def c2 := run Exec.sys (Exec.init false false false 10 1 false jobs1 true) (List.replicate 3 0 ++ List.replicate 3 1 ++ List.replicate 3 2 ++ List.replicate 3 3)
+example : Exec.allDone c2 = true ∧ (List.range 4).map (Exec.outOf c2) = [some .runErr, some .runErr, some .runErr, some .runErr] ∧ c2.shared.direct = [0, 1, 2, 3] := by decide +kernel
 
 end CM.Props.ExecAll
